@@ -428,6 +428,7 @@ def run(ctx):
     plans = [('HA',), ('HB',), ('HC',)]
     for plan in plans:
         module = c.module(S.dump(src))
+        c.set(c.get(c.get(module, 'types').fields[0].items[named['Host']], 'inner').fields[0].items[0], 'name', some(C06.NAME0))   # abstract member name
         for k, h in holes.items():
             set_inner(ctx, module, hh[k], h.inner(ctx))
         assume = []
@@ -453,9 +454,26 @@ def run(ctx):
                      ('Inner derives encase::ShaderType', z3.BoolVal('Inner' in sts and 'encase::ShaderType' in sts['Inner']['derives']))]
             if host:
                 fd = {f[0]: f for f in host['fields']}
-                decl = [mb['name'] for mb in mj['types'][named['Host']]['inner']['Struct']['members']]
+                decl = [C06.NAME0] + [mb['name'] for mb in mj['types'][named['Host']]['inner']['Struct']['members']][1:]
                 conds.append(('Host fields are emitted in WGSL declaration order', z3.BoolVal([f[0] for f in host['fields']] == decl)))
-                conds.append(('member m0 has the encase class of its WGSL type', class_ok(HA, decode_type(fd['m0'][2]))))
+                if not all(k_ in fd for k_ in (C06.NAME0, 'm1', 'tail')):
+                    m = ctx.check(pc, z3.BoolVal(True))
+                    key = 'C10/Host member missing'
+                    seen[key] = seen.get(key, 0) + 1
+                    if m is not None and seen[key] == 1:
+                        spell = {k: h.wgsl(m) for k, h in holes.items()}
+                        name0 = concrete_name(m, C06.NAME0, 'm0')
+                        rep, det = False, {'members': spell}
+                        if all(spell.values()):
+                            wsrc = C06.render(spell, '', name0)
+                            bad, n = native_encase(ctx, wsrc, ['Host'], 'witness')
+                            k2, t2, _ = ctx.gen_tokens(wsrc, OPTS)
+                            real_fields = [f[0] for f in decode_structs(t2)[0].get('Host', {'fields': []})['fields']] if k2 == 'ok' else None
+                            rep = bool(bad) or (real_fields is not None and name0 not in real_fields)
+                            det = {'wgsl': wsrc, 'options': OPTS, 'real_fields_of_Host': real_fields, 'encase': bad}
+                        ctx.report(key, f'Host is emitted with fields {list(fd)}: a member named {name0!r} is dropped', det, rep, det)
+                    continue
+                conds.append(('member m0 has the encase class of its WGSL type', class_ok(HA, decode_type(fd[C06.NAME0][2]))))
                 conds.append(('member m1 has the encase class of its WGSL type', class_ok(HB, decode_type(fd['m1'][2]), bm_for(HB))))
                 sem = decode_type(fd['tail'][2])
                 is_rt = z3.And(HC.tdisc == HC.TI['Array'], HC.adyn)
@@ -475,8 +493,9 @@ def run(ctx):
             spell = {k: h.wgsl(m) for k, h in holes.items()}
             rep, det = False, {'members': spell}
             if all(spell.values()):
-                bad, n = native_encase(ctx, C06.render(spell), ['Host'], 'witness')
-                rep, det = bool(bad), {'wgsl': C06.render(spell), 'encase': bad}
+                wsrc = C06.render(spell, '', concrete_name(m, C06.NAME0, 'm0'))
+                bad, n = native_encase(ctx, wsrc, ['Host'], 'witness')
+                rep, det = bool(bad), {'wgsl': wsrc, 'encase': bad}
             ctx.report(key, f'{failed[0]}: member types {spell}', det, rep, det)
         oks = [r for r in res if r[1] == 'ok']
         ctx.vacuity_witness('encase class assertions reachable', oks[0][0])
